@@ -8,6 +8,9 @@ CLAIMS = {
  "C05": dict(engine="structs", design="4/C05, 3.4",
    text="MapAbs.tla (dictionary with nondeterministic iteration order, key-copy ledger, destructor fates) is model-checked exhaustively by TLC on bounded configs (3 keys x 3 values, all flag combinations); its dumped state graph is replayed into the real map with plain keys, keys sharing one home slot and three key sets whose chains wrap around the end of the 256-slot table (all paths up to D mutating steps with all queries at every node, edge cover, random walks), comparing return values, full contents, length, iterator position, destructor counts and the allocator ledger (private key copies) after every step.",
    note="Bounded: 3 keys/3 values in E1/E2. Iteration order is followed by observation. Trusted: TLC, dot parser, driver projection, a copy of the public hash used only to search adversarial keys."),
+ "C06": dict(engine="thpool", design="4/C06, 3.5",
+   text="Thpool.tla models thpool.c at pthread-operation granularity (main/new/free, N submitters, up to M workers; lock, condition wait/signal/broadcast incl. spurious wake-ups, create, join, destroy) for eager/lazy x joinable/detached x wait-all/wait-current pools; TLC checks exhaustively, per bounded (threads, tasks, submitters) configuration: exactly-once execution, bounded parallelism, free semantics, nothing runs after free, no pool thread alive after the pool is freed, destroy discipline, deadlock freedom, and termination under per-thread fairness. Complete schedules of the dumped graph are then executed on the real thpool.c under a cooperative scheduler substituted for pthread_* (no source change): the thread named by each spec step is released and its announced operation plus the projection (lock holder, every thread's pending operation, task states, pool freed) is compared with the spec state after every step, with ASan/UBSan and the allocator ledger attached.",
+   note="Bounded: <=3 workers, <=3 tasks, <=2 submitters. pthread primitives are virtualised (their semantics is the spec's); memory-level data races are outside this controlled replay. Precondition: free is called after all submitters returned."),
  "C10": dict(engine="structs", design="4/C10, 3.1",
    text="Mem.tla (population of ref-counted blocks with nested destructors, per-step destructor/free event log) is model-checked by TLC; the dumped graph is replayed into m_mem_* (all paths, edge cover, walks) comparing return values, the order of destructor/free events seen by the allocator ledger, reported size, pointer alignment and content integrity; a recorded trace covering every size 0..N (all residues mod 16) and a random 8-block population is validated by TLC against MemTrace.tla.",
    note="Bounded: 3 blocks / 3 refs in E1/E2; sizes beyond by trace validation. Precondition: references dropped by their owner only."),
@@ -43,6 +46,7 @@ def main():
                 "baseline_off_cmd": "cmake --build /repo/_build && ctest --test-dir /repo/_build -j8 --timeout 900",
                 "source_commits": [], "add_only": True},
       "engines": [
+        {"name": "thpool", "path": "spec/Thpool.tla spec/ThpoolMC.tla harness/vp_sched.h harness/drv_thpool.c", "serves_properties": ["C06"], "kind_free_text": "TLC (safety + liveness) + controlled-schedule replay of the dumped state graph on the real thpool.c"},
         {"name": "structs", "path": "spec/{Seqs,Bst,MapAbs,Mem,MemTrace}.tla harness/drv_{seqs,bst,map,mem}.c harness/gw.h", "serves_properties": ["C05", "C10", "C11", "C12"], "kind_free_text": "TLC bounded model checking + replay of the dumped state graph into the real code + TLC trace validation"},
       ],
       "checks": checks,
